@@ -351,6 +351,18 @@ func (nf *noiseFn) markWritten(st *noiseState, c string, pos token.Pos) {
 func (nf *noiseFn) transferCall(call *ast.CallExpr, st *noiseState) {
 	sel, ok := unparen(call.Fun).(*ast.SelectorExpr)
 	if !ok {
+		// a package-level helper of the module that masks some of its polynomial parameters on every path
+		if _, plain := unparen(call.Fun).(*ast.Ident); plain && nf.sp != nil {
+			if f := calleeFunc(nf.info, call); f != nil && f.Pkg() != nil && strings.HasPrefix(f.Pkg().Path(), core.ModPath) {
+				if pp := f.Pkg().Path(); !strings.HasSuffix(pp, "/ring") && !strings.HasSuffix(pp, "/ring/ringqp") {
+					for j := range noisyParamsAt(nf.c, nf.sp, nf.info, nf.fd, call, f, nf.depth) {
+						if j < len(call.Args) {
+							nf.applySampler(st, nf.cell(call.Args[j], st, 0), skError, "ReadAndAdd", call.Pos())
+						}
+					}
+				}
+			}
+		}
 		return
 	}
 	name := sel.Sel.Name
@@ -387,7 +399,7 @@ func (nf *noiseFn) transferCall(call *ast.CallExpr, st *noiseState) {
 	// a helper of the module that masks some of its polynomial parameters on every path
 	if f := calleeFunc(nf.info, call); f != nil && f.Pkg() != nil && strings.HasPrefix(f.Pkg().Path(), core.ModPath) && nf.sp != nil {
 		if pp := f.Pkg().Path(); !strings.HasSuffix(pp, "/ring") && !strings.HasSuffix(pp, "/ring/ringqp") {
-			for j := range noisyParams(nf.c, nf.sp, f, nf.depth) {
+			for j := range noisyParamsAt(nf.c, nf.sp, nf.info, nf.fd, call, f, nf.depth) {
 				nf.applySampler(st, cellArg(j), skError, "ReadAndAdd", call.Pos())
 			}
 		}
@@ -744,6 +756,9 @@ func (nf *noiseFn) cellUsesScopeVar(c string, decls map[types.Object]bool) bool 
 type samplerProv struct {
 	p     *core.Program
 	field map[*types.Var]samplerKind
+	// assumeErr: sampler-typed parameters of the helper being summarised, taken to be error samplers; the summary
+	// then only holds at call sites that pass an error sampler there (noisyParamsCond)
+	assumeErr map[types.Object]bool
 }
 
 func distKind(info *types.Info, e ast.Expr) samplerKind {
@@ -956,6 +971,9 @@ func (sp *samplerProv) kindOfExpr(info *types.Info, fd *ast.FuncDecl, e ast.Expr
 		if o == nil {
 			return skUnknown
 		}
+		if sp.assumeErr[o] {
+			return skError
+		}
 		if d := singleDef(info, fd, o); d != nil {
 			return sp.kindOfExpr(info, fd, d, depth+1)
 		}
@@ -1041,6 +1059,24 @@ func prepNoiseFn(c *core.Ctx, sp *samplerProv, pk *packages.Package, fd *ast.Fun
 // return (so that a block of an emitter extracted into a helper still counts). Memoised; recursion-guarded.
 var noisyParamsMemo = map[*types.Func]map[int]bool{}
 
+// noisyParamsCond: the sampler-typed parameters of a summarised helper; its summary holds for a call only if the
+// arguments passed there are error samplers.
+var noisyParamsCond = map[*types.Func][]int{}
+
+// noisyParamsAt returns the summary of f for one call: empty unless every sampler argument is an error sampler.
+func noisyParamsAt(c *core.Ctx, sp *samplerProv, info *types.Info, fd *ast.FuncDecl, call *ast.CallExpr, f *types.Func, depth int) map[int]bool {
+	res := noisyParams(c, sp, f, depth)
+	if len(res) == 0 {
+		return res
+	}
+	for _, i := range noisyParamsCond[funcOrigin(f)] {
+		if i >= len(call.Args) || sp.kindOfExpr(info, fd, call.Args[i], 0) != skError {
+			return nil
+		}
+	}
+	return res
+}
+
 func noisyParams(c *core.Ctx, sp *samplerProv, f *types.Func, depth int) map[int]bool {
 	f = funcOrigin(f)
 	if m, ok := noisyParamsMemo[f]; ok {
@@ -1068,6 +1104,22 @@ func noisyParams(c *core.Ctx, sp *samplerProv, f *types.Func, depth int) map[int
 		return nil
 	}
 	var sink []ob
+	// sampler-typed parameters are taken to be error samplers: the summary is conditional on what the call site passes
+	sigH := f.Type().(*types.Signature)
+	var cond []int
+	savedAssume := sp.assumeErr
+	sp.assumeErr = map[types.Object]bool{}
+	for k, v := range savedAssume {
+		sp.assumeErr[k] = v
+	}
+	for i := 0; i < sigH.Params().Len(); i++ {
+		if isSamplerType(sigH.Params().At(i).Type()) {
+			sp.assumeErr[sigH.Params().At(i)] = true
+			cond = append(cond, i)
+		}
+	}
+	defer func() { sp.assumeErr = savedAssume }()
+	noisyParamsCond[f] = cond
 	nf := prepNoiseFn(c, sp, pk, fd, &sink)
 	nf.depth = depth + 1
 	st := &noiseState{map[string]bool{}, map[types.Object]string{}, map[string]token.Pos{}}
@@ -1077,9 +1129,16 @@ func noisyParams(c *core.Ctx, sp *samplerProv, f *types.Func, depth int) map[int
 		sig := f.Type().(*types.Signature)
 		for i := 0; i < sig.Params().Len(); i++ {
 			p := sig.Params().At(i)
-			if polyish(p.Type()) && end.isNoisy(p.Name()) {
+			// a QP polynomial passed by value is masked when its Q half is (the error is drawn in Q and extended to P)
+			if polyish(p.Type()) && (end.isNoisy(p.Name()) || end.isNoisy(p.Name()+".Q")) {
 				res[i] = true
 			}
+		}
+	}
+	if os.Getenv("LV_DEBUG_NOISE") != "" {
+		fmt.Fprintf(os.Stderr, "noisyParams %s: res=%v cond=%v nReads=%d end=%v\n", f.Name(), res, cond, nf.nReads, end != nil)
+		if end != nil {
+			fmt.Fprintf(os.Stderr, "  noisy=%v\n", end.noisy)
 		}
 	}
 	noisyParamsMemo[f] = res
@@ -1133,7 +1192,7 @@ func scanNoise(c *core.Ctx) []ob {
 		if !reads {
 			ast.Inspect(fd.Body, func(n ast.Node) bool {
 				if call, ok := n.(*ast.CallExpr); ok && !reads {
-					if f := calleeFunc(info, call); f != nil && f.Pkg() == pk.Types && len(noisyParams(c, sp, f, 0)) > 0 {
+					if f := calleeFunc(info, call); f != nil && f.Pkg() == pk.Types && len(noisyParamsAt(c, sp, info, fd, call, f, 0)) > 0 {
 						reads = true
 					}
 				}
